@@ -1,4 +1,4 @@
-(* Codec/RangeArith.v — small arithmetic and list facts used by the range-coder proofs:
+(* Codec/RangeArithProofs.v — small arithmetic and list facts used by the range-coder proofs:
    big-endian values of byte lists, the bit-operation idioms of the Rust code rewritten as
    div/mod, and the pure interval arithmetic of one coding step. Proofs only. *)
 From LzVerif Require Import Base.Bytes Codec.Store Codec.Range Codec.ProbProofs.
